@@ -266,7 +266,7 @@ where
         let ncases = ((ncases as f64) * scale).ceil().max(1.0) as u32;
         let config = Config {
             cases: ncases,
-            max_shrink_iters: 4000,
+            max_shrink_iters: 1500,
             max_shrink_time: 0,
             failure_persistence: None,
             max_local_rejects: 1 << 20,
